@@ -203,6 +203,10 @@ def run_history(a5, gen, state, fresh_mod, rew, spec, ctx, repo, pyc):
             ctx.count('coarse_groups')
         else:
             groups.append([gen_call(rnd, a5, gen)])
+    # the world cell is a valid argument everywhere: one group per history, twice each (the first results get scrambled)
+    wg = [('cell_to_boundary', [0]), ('cell_to_children', [0, 0]), ('cell_to_lonlat', [0]), ('get_res0_cells', []), ('cell_to_boundary', [0]),
+          ('cell_to_children', [0, 0]), ('get_res0_cells', []), ('cell_to_parent', [0, -1]), ('get_resolution', [0])]
+    groups.append(wg)
     if mode == 'cold':
         rew.rewind()  # generation warmed the caches again
     results = {}
